@@ -289,8 +289,22 @@ def run(F, rep):
                 n_e2 += 1
                 a = c['c'][1] if len(c.get('c', [])) > 1 else None
                 named = a is not None and a.get('k') != 'DefArg' and any(x.get('k') == 'Str' or (x.get('k') == 'Ref' and x.get('dk') == 'parm') for x in walk(a))
-                if not named and g.name == 'nodesCellMl1XVersion':
-                    rep.exempt('C14.E2', 'nodesCellMl1XVersion|namespace only', 'asks which 1.x namespace the element is in, whatever the element: that is what the message needs')
+                def _only_picks_text(g_, c_):
+                    """the test merely chooses between two string literals (`x ? "1.0" : "1.1"`, `if (x) return "1.0"; return "1.1";`): a version label for a message"""
+                    p_ = g_.parent(c_)
+                    while p_ is not None and p_.get('k') in ('Paren', 'Cast', 'Un'):
+                        p_ = g_.parent(p_)
+                    if p_ is None:
+                        return False
+                    if p_.get('k') == 'Cond' and len(p_.get('c', [])) == 3:
+                        return all(any(x.get('k') == 'Str' for x in walk(arm)) and not any(x.get('k') == 'Call' and not x.get('opc') and x.get('fn') not in ('basic_string',) and x.get('k') != 'Construct' for x in walk(arm) if x.get('k') == 'Call' and (x.get('ck') or '').startswith('libcellml')) for arm in p_['c'][1:])
+                    if p_.get('k') == 'If' and role(p_, 'cond') is not None and any(x is c_ for x in walk(role(p_, 'cond'))):
+                        th_ = role(p_, 'then')
+                        rets_ = [x for x in walk(th_ or {}) if x.get('k') == 'Return']
+                        return bool(rets_) and all(x.get('c') and any(y.get('k') == 'Str' for y in walk(x['c'][0])) for x in rets_) and len(list(walk(th_))) < 12
+                    return False
+                if not named and (g.name == 'nodesCellMl1XVersion' or _only_picks_text(g, c)):
+                    rep.exempt('C14.E2', '%s|namespace only' % g.name, 'asks which 1.x namespace the element is in, whatever the element, only to pick the version label of a message')
                     continue
                 rep.check(named, 'C14.E2', '%s|%s@%s' % (g.short.split('::')[-1], c['fn'], sum(1 for x in g.walk() if x.get('k') == 'Call' and x.get('fn') == c['fn'] and x.get('l', 0) < c.get('l', 0))), g.where(c),
                           '%s calls `%s` without naming the element' % (g.short, render(c)[:50]), 'named')
